@@ -1,7 +1,7 @@
 //! API-level suites: (table, layout, queries) cases judged by the reference evaluator + `q_valid`,
 //! and (table, layout1, layout2, queries) pairs for the layout-independence oracle of C02.
 use crate::db::{Db, Layout, QOut};
-use crate::judge::{outcome, run_and_judge, short, signature_of};
+use crate::judge::{outcome_attributed, run_and_judge, short};
 use crate::query::Query;
 use crate::val::Table;
 use lvharness::rng::Rng;
@@ -81,7 +81,7 @@ impl Suite for ApiSuite {
                 qs.iter()
                     .map(|q| {
                         let j = run_and_judge(&table, &layout, q, &mut cache);
-                        outcome(&table, q, &j, "")
+                        outcome_attributed(&table, &layout, q, &j, &mut cache, "")
                     })
                     .collect()
             }
@@ -97,13 +97,13 @@ impl Suite for ApiSuite {
                     let j2 = run_and_judge(&table, &l2, q, &mut c2);
                     // the implementation-only oracle of C02: two realisations of one logical table
                     let eq = equivalent(q, &table, &j1.out, &j2.out);
-                    let mut o1 = outcome(&table, q, &j1, " [layout 1]");
-                    let mut o2 = outcome(&table, q, &j2, " [layout 2]");
+                    let mut o1 = outcome_attributed(&table, &l1, q, &j1, &mut c1, " [layout 1]");
+                    let mut o2 = outcome_attributed(&table, &l2, q, &j2, &mut c2, " [layout 2]");
                     if let Err(why) = eq {
                         let sig = format!(
-                            "layout-dependent:{}|{}",
-                            if j1.verdict.is_ok() { "valid".to_string() } else { signature_of(q, &j1) },
-                            if j2.verdict.is_ok() { "valid".to_string() } else { signature_of(q, &j2) }
+                            "layout-dependent:{}||{}",
+                            o1.signature.clone().unwrap_or_else(|| "valid".to_string()),
+                            o2.signature.clone().unwrap_or_else(|| "valid".to_string())
                         );
                         let msg = format!(
                             "`{}`: results depend on the physical layout: {}; layout 1 {} -> {}; layout 2 {} -> {}",
